@@ -14,6 +14,7 @@ import numpy as np
 from vmon import core, gen, contracts, cli
 from vmon.props import C01
 
+ANCHORS = ['evo/core/result.py', 'evo/tools/pandas_bridge.py', 'evo/main_res.py']
 LEVEL = "exploration"
 SHARDS = {"quick": 8, "thorough": 16}
 RULE = ("lists of 1..8 results with arbitrary statistic values and array lengths (equal, unequal, "
